@@ -28,7 +28,7 @@ MANIFEST = {
                  'spellings on a real tree with decoys; open() recorded; oracle = independent path normaliser',
     'text': 'Every name of up to 4 segments (root spellings 1-3: 3 segments in the quick tier) from a 14-segment universe with three separators '
             'and three leads, for five spellings of the root, is passed to the real static_file; each opened path must '
-            'lie inside the root and 200 is allowed only for regular files inside it, with their exact bytes. Sibling directories that differ from the root only in letter case, and two nested roots in one process, are part of the tree.',
+            'lie inside the root and 200 is allowed only for regular files inside it, with their exact bytes. Sibling directories that differ from the root only in letter case, and two nested roots in one process, are part of the tree. Roots spelled with parent references from a working directory below the served one, files beside the root whose names begin the root name, and conditional requests are covered.',
     'note': 'Bounds: <=4 segments, POSIX, no symlinks. Trusted: CPython os/stat, the reference normaliser in this file.',
 }
 
